@@ -5,10 +5,13 @@ Part 1: the C indenter (`lib/dumbindent`), over `Model/Indent.lean`, which mirro
 REPAIRED `FormatBytes` (fixes/C12-dumbindent-stale-line.patch).  Helper lemmas:
 `Proof/IndentBasic.lean` (byte conservation, termination), `Proof/IndentWs.lean`
 (`normalise`, the line loop invariant), `Proof/IndentIdem{,2,3}.lean` (congruence of the
-inner loop under trimmed trailing blanks and a changed continuation; idempotence).
+inner loop under trimmed trailing blanks and a changed continuation; idempotence),
+`Proof/IndentLex.lean` (round 2b: the ghost flag `lexClosed` of the run discharged from the predicate
+`delimitersTerminated` on the input text alone).
 -/
 import WuffsVerif.Proof.IndentWs
 import WuffsVerif.Proof.IndentIdem3
+import WuffsVerif.Proof.IndentLex
 
 namespace WuffsVerif.Props.C12
 open WuffsVerif.Indent
@@ -164,6 +167,56 @@ example : lexClosed ⟨false, 0⟩
 newline per pass (`"/* a\n\n"`) -/
 example : format ⟨false, 0⟩ (format ⟨false, 0⟩ [47, 42, 32, 97, 10, 10]) ≠ format ⟨false, 0⟩ [47, 42, 32, 97, 10, 10] ∧
     lexClosed ⟨false, 0⟩ [47, 42, 32, 97, 10, 10] = false := by
+  decide
+
+/-! ### … with the property's own hypothesis -/
+
+/-- `indent_idempotent_terminated`: idempotence with the property's own hypothesis, a decidable
+predicate on the input TEXT (no option, no state of the run): `delimitersTerminated s` — reading `s`
+line by line with the lexical classes dumbindent documents (a line whose first non-blank byte is
+'#' is a directive, opaque, continued by a trailing backslash; `//` runs to the end of the line;
+"…" and '…' with backslash escapes end on their line; `…` and slash-star comments end anywhere
+later), every string, character constant, raw string and comment that is opened is terminated.
+The ghost flag `lexClosed` of `indent_idempotent` follows from it for every option
+(`lexClosed_of_delimitersTerminated`: the run's inner loop is that lexer plus counters). -/
+theorem indent_idempotent_terminated (o : Opts) (s : Bytes) (h : delimitersTerminated s = true) :
+    format o (format o s) = format o s :=
+  format_idem o s (lexClosed_of_delimitersTerminated o s h)
+
+/-- the same with the weaker hypothesis that raw strings and slash-star comments are terminated
+(an unterminated "…" or '…' just ends with its line) -/
+theorem indent_idempotent_raw_terminated (o : Opts) (s : Bytes) (h : rawTerminated s = true) :
+    format o (format o s) = format o s :=
+  format_idem o s (lexClosed_of_rawTerminated o s h)
+
+/-- `indent_property`: the three clauses of the property together, as stated: for every option and
+every text whose string, character, raw-string and comment delimiters are all terminated (and that
+does not start with a blank line — see `indent_ws_only_fails_with_leading_blank_line`), the indenter
+terminates, its output equals the input after stripping each line's leading and trailing blanks and
+trailing blank lines, and re-indenting it changes nothing. -/
+theorem indent_property (o : Opts) (s : Bytes) (h : delimitersTerminated s = true)
+    (hb : hasLeadingBlankLine s = false) :
+    (formatFuel (s.length + 1) o s).isSome ∧ normalise (format o s) = normalise s ∧
+      format o (format o s) = format o s :=
+  ⟨indent_terminates o s, indent_ws_only o s hb, indent_idempotent_terminated o s h⟩
+
+/-- non-vacuity: the text with a multi-line comment followed by code and a second comment -/
+example : delimitersTerminated
+    [123, 10, 120, 59, 32, 47, 42, 32, 97, 10, 98, 32, 42, 47, 32, 121, 59, 32, 47, 42, 99, 42, 47, 32, 10, 125] = true := by
+  decide
+
+/-- `x = "a\"b"; c = '\''; r = ` q` // "` / `#define X "` / `y` : strings with escapes, a
+character constant, a raw string, a quote inside a `//` comment and inside a directive -/
+example : delimitersTerminated
+    [120, 32, 61, 32, 34, 97, 92, 34, 98, 34, 59, 32, 99, 32, 61, 32, 39, 92, 39, 39, 59, 32, 114, 32, 61, 32, 96, 32,
+      113, 96, 32, 47, 47, 32, 34, 10, 35, 100, 101, 102, 105, 110, 101, 32, 88, 32, 34, 10, 121] = true := by
+  decide
+
+/-- an unterminated comment is not terminated; an unterminated string is not either, but it is
+harmless for idempotence (`rawTerminated`) -/
+example : delimitersTerminated [47, 42, 32, 97, 10, 10] = false ∧
+    delimitersTerminated [120, 32, 61, 32, 34, 97, 98, 10, 121] = false ∧
+    rawTerminated [120, 32, 61, 32, 34, 97, 98, 10, 121] = true := by
   decide
 
 /-- the second run re-derives the same state: one code line, formatted again in any context,
